@@ -316,6 +316,15 @@ func (r *Runner) RunCases(cases []Case) {
 			if res, ok := im["res"].(string); ok {
 				r.St.Count(c.Op + ":" + res)
 			}
+			if runs, ok := im["runs"].([]any); ok {
+				vec := ""
+				for _, rv := range runs {
+					if rm, ok := rv.(map[string]any); ok {
+						vec += str(rm["res"])[:1]
+					}
+				}
+				r.St.Count(c.Op + ":verdicts:" + vec)
+			}
 			if ran, ok := im["ran"].([]any); ok && len(ran) > 0 {
 				r.St.Count(c.Op + ":inspections-ran")
 			}
